@@ -1,3 +1,133 @@
 package main
 
-func (in *inst) netRedirects() {}
+import (
+	"go/ast"
+	"go/types"
+
+	"golang.org/x/tools/go/ast/astutil"
+)
+
+const simquicPath = "connectrpc.com/conformance/internal/verifsim/simquic"
+
+func namedType(t types.Type) (pkg, name string) {
+	if p, ok := t.(*types.Pointer); ok {
+		t = p.Elem()
+	}
+	n, ok := t.(*types.Named)
+	if !ok || n.Obj().Pkg() == nil {
+		return "", ""
+	}
+	return n.Obj().Pkg().Path(), n.Obj().Name()
+}
+
+// netRedirects sends the peers' network entry points to the simulated network
+// (engine N): net.Listen, net.Dialer.DialContext, http.Transport literals,
+// quic.ListenAddrEarly and http3.Transport literals.
+func (in *inst) netRedirects() {
+	usedNet, usedQuic := false, false
+	pkgFunc := func(c *ast.CallExpr) (string, string, *ast.Ident) {
+		sel, ok := c.Fun.(*ast.SelectorExpr)
+		if !ok {
+			return "", "", nil
+		}
+		id, ok := sel.X.(*ast.Ident)
+		if !ok {
+			return "", "", nil
+		}
+		pn, ok := in.info.Uses[id].(*types.PkgName)
+		if !ok {
+			return "", "", nil
+		}
+		return pn.Imported().Path(), sel.Sel.Name, id
+	}
+	ast.Inspect(in.file, func(n ast.Node) bool {
+		switch x := n.(type) {
+		case *ast.CallExpr:
+			if path, name, id := pkgFunc(x); id != nil {
+				switch {
+				case path == "net" && name == "Listen":
+					id.Name = "verifsimnet"
+					usedNet = true
+					in.counts["net.Listen"]++
+				case path == "github.com/quic-go/quic-go" && name == "ListenAddrEarly":
+					id.Name = "verifsimquic"
+					usedQuic = true
+					in.counts["quic.ListenAddrEarly"]++
+				}
+				return true
+			}
+			if sel, ok := x.Fun.(*ast.SelectorExpr); ok && sel.Sel.Name == "DialContext" && len(x.Args) == 3 {
+				if tv, ok := in.info.Types[sel.X]; ok {
+					if p, nm := namedType(tv.Type); p == "net" && nm == "Dialer" {
+						recv := sel.X
+						x.Fun = &ast.SelectorExpr{X: ast.NewIdent("verifsimnet"), Sel: ast.NewIdent("DialVia")}
+						x.Args = append([]ast.Expr{recv}, x.Args...)
+						usedNet = true
+						in.counts["Dialer.DialContext"]++
+					}
+				}
+			}
+		case *ast.CompositeLit:
+			tv, ok := in.info.Types[x]
+			if !ok {
+				return true
+			}
+			p, nm := namedType(tv.Type)
+			hasKey := func(k string) bool {
+				for _, e := range x.Elts {
+					if kv, ok := e.(*ast.KeyValueExpr); ok {
+						if id, ok := kv.Key.(*ast.Ident); ok && id.Name == k {
+							return true
+						}
+					}
+				}
+				return false
+			}
+			switch {
+			case p == "net/http" && nm == "Transport" && !hasKey("DialContext"):
+				x.Elts = append(x.Elts, &ast.KeyValueExpr{Key: ast.NewIdent("DialContext"),
+					Value: &ast.SelectorExpr{X: ast.NewIdent("verifsimnet"), Sel: ast.NewIdent("DialContext")}})
+				usedNet = true
+				in.counts["http.Transport"]++
+			case p == "github.com/quic-go/quic-go/http3" && nm == "Transport" && !hasKey("Dial"):
+				x.Elts = append(x.Elts, &ast.KeyValueExpr{Key: ast.NewIdent("Dial"),
+					Value: &ast.SelectorExpr{X: ast.NewIdent("verifsimquic"), Sel: ast.NewIdent("Dial")}})
+				usedQuic = true
+				in.counts["http3.Transport"]++
+			}
+		}
+		return true
+	})
+	if len(in.redirect) > 0 {
+		in.applyRedirects(in.file)
+	}
+	if usedNet {
+		astutil.AddNamedImport(in.fset, in.file, "verifsimnet", simnetPath)
+	}
+	if usedQuic {
+		astutil.AddNamedImport(in.fset, in.file, "verifsimquic", simquicPath)
+	}
+	// imports that became unused
+	for _, path := range []string{"net", "github.com/quic-go/quic-go"} {
+		if !in.stillUses(path) {
+			astutil.DeleteImport(in.fset, in.file, path)
+		}
+	}
+}
+
+// stillUses reports whether the file still refers to the package imported from
+// path (identifiers renamed by the rewrites above no longer count).
+func (in *inst) stillUses(path string) bool {
+	used := false
+	ast.Inspect(in.file, func(n ast.Node) bool {
+		id, ok := n.(*ast.Ident)
+		if !ok {
+			return true
+		}
+		if pn, ok := in.info.Uses[id].(*types.PkgName); ok && pn.Imported().Path() == path && id.Name == pn.Name() {
+			used = true
+		}
+		return true
+	})
+	return used
+}
